@@ -3,22 +3,27 @@
 Every call f(args) of a catalog function (categories elementary, gamma, zeta, expint, bessel, hyper, elliptic,
 intpart, numtheory) with finite arguments inside the stated envelope, at working precision 10..3500 bits, must
 return or raise a documented exception within B logical steps (sys.monitoring PY_START events + backward JUMP
-events, counted process-wide by instrument.StepBudget around the outermost call).
+events, counted process-wide by instrument.StepBudget around the outermost call).  B belongs to the input class:
 
-  quick    : |x| <= 10^4 in each component,  B = 2*10^7
-  thorough : |x| <= 10^6 in each component,  B = 4*10^8
+  |x| <= 10^4 in each component (counts <= 300)   B = 2*10^7      (quick tier: only this class)
+  |x| <= 10^6 in each component (counts <= 1000)  B = 4*10^8      (thorough tier: both classes)
 
-Observed per case: number of steps, outcome (returned / exception type / budget exceeded / wall-clock cap).
-Verdicts:
-  violated  -- step budget exceeded (witness: frame stack at the moment of interruption), or an exception of a type
-               that is not documented escapes (UnboundLocalError, KeyError, RecursionError, TypeError, ...)
-  undecided -- the wall-clock cap fired without the step budget tripping (few, gigantic steps), MemoryError,
-               child process died
-  held      -- everything else
+Monitors and verdicts
+  * step counter: a call over B is re-executed once in a fresh process with 25 times the allowance (steps and CPU
+    time of the first pass alike): it terminates -> held and noted 'over budget but terminates' (step count in the
+    evidence); it does not -> violation, witness = frame stack at the interruption;
+  * iteration monitors (LINE events) on the loops the property names: mpf_psi0 / mpc_psi0 / mpc_psi Euler-Maclaurin
+    loops and the hypsum precision-doubling loop must stay within an iteration bound derived from their algorithm
+    (5-6 times the legitimate count) -> violation C24/loop-bound/<loop>/<cell> within a second, also where the
+    iterations are too heavy for the step counter to get anywhere;
+  * exception type of every call: anything but ValueError (incl. ComplexResult), ZeroDivisionError, NoConvergence,
+    NotImplementedError escaping -> violation "neither returns nor raises a documented exception";
+  * CPU-time caps (never a violation on their own): T1 per call, extended to T2 only while the step rate projects to
+    reach B; cap reached -> undecided.  MemoryError under the 6 GB address-space limit, child death -> undecided.
 
 Each shard runs its cases in a forked child; the parent (which never executes library code) supervises through a
 pipe, so a hung or crashed case costs one `undecided` and the rest of the shard still runs.  After an interruption
-(budget / wall cap) the child keeps running (its warm caches are expensive to rebuild) but is marked *tainted*:
+(budget / cap / loop bound) the child keeps running (its warm caches are expensive to rebuild) but is marked *tainted*:
 asynchronously interrupted library code may have left a module-level cache half-updated, so a violation observed in
 a tainted child is never reported directly -- the case is re-executed in a fresh child forked from the clean parent
 and only that result counts.
@@ -57,8 +62,8 @@ SHARD_WALL_SAFETY = {'quick': 420.0, 'thorough': 2500.0}
 #   T3 -> undecided.  For cells already listed as known findings only the short cap T3_KNOWN is spent (the verdict
 #   never depends on the list, only the time spent does).
 EXT = 25
-T3 = {'quick': 240.0, 'thorough': 420.0}
-T3_KNOWN = {'quick': 20.0, 'thorough': 420.0}
+T3 = {'quick': 400.0, 'thorough': 800.0}
+T3_KNOWN = {'quick': 20.0, 'thorough': 300.0}
 DEADLINE_SLACK = {'quick': 20.0, 'thorough': 90.0}      # an extension beyond T1 must project to end before deadline+slack
 N_SHARDS = 16
 MEM_LIMIT = 6 * 2**30        # address-space limit of a child (bytes)
@@ -68,17 +73,19 @@ RULE = ('seeded stratified generation: every catalog function x argument style (
         'precision 10..3500; every case is non-trivial (the call is executed under the step counter); '
         'distinct = distinct (function, exact argument specs, precision)')
 ASSUMPTIONS = ['bounded progress stands in for termination: B logical steps (PY_START + backward JUMP) with B fixed a priori '
-               '(2*10^7 for |x|<=10^4, 4*10^8 for |x|<=10^6); a call that needs more is reported as non-terminating',
+               '(2*10^7 for |x|<=10^4, 4*10^8 for |x|<=10^6); a call over B that also fails to finish within 25 times that allowance '
+               '(steps, and CPU time of the first pass) is reported as non-terminating; one that finishes is held and listed',
+               'iteration bounds of the anchored loops: 2 wp+200 (psi0 loops), 6 wp+60 m+400 (psi_m loop), 64 doublings (hypsum); legitimate counts are about 0.35 wp / 1.3 wp+13 m / < 20',
                'integer count/order/index arguments are limited to 300 (quick) / 1000 (thorough): recurrences polynomial in them terminate but are outside "moderate size"',
                'documented exceptions = ValueError (incl. ComplexResult), ZeroDivisionError, NoConvergence, NotImplementedError; '
                'OverflowError is documented only for exact=True arithmetic and astronomically large numbers, so it is not accepted here',
                'argument kinds per function are those declared in vf/catalog.py, narrowed to real where the documentation restricts the function to real arguments']
-LEVEL_TEXT = ('exploration: ~2*10^4 (quick) / ~2*10^5 (thorough) calls of the 184 catalog functions on the real code under a '
+LEVEL_TEXT = ('exploration: ~1.4*10^4 (quick) / ~7*10^4 (thorough) calls of the 184 catalog functions on the real code under a '
               'process-wide step counter; generators aim at the edges of asymptotic validity, parameters near non-positive '
               'integers, |z| near 1, large orders, precisions up to 3500 bits')
 LEVEL_NOTE = ('trusted base: CPython sys.monitoring event delivery (self-tested in every worker by cutting a deliberate endless loop); '
               'inputs not generated are not covered; termination is claimed only as "within B steps"')
-TECHNIQUE = 'runtime monitor: process-wide logical step budget around every outermost call + exception-type check; fork-supervised workers with wall-clock caps'
+TECHNIQUE = 'runtime monitors: process-wide logical step budget around every outermost call, iteration-bound monitors on the anchored loops, exception-type check; fork-supervised workers with CPU-time caps'
 
 DOCUMENTED = ('ValueError', 'ZeroDivisionError', 'NoConvergence', 'NotImplementedError', 'ComplexResult')
 
@@ -375,6 +382,9 @@ DIRECTED = [
     ('primezeta', 53, [K.R(rawf(2.0 ** -10))]),            # Moebius sum next to the natural boundary Re(s)=0
     ('digamma', 53, [K.R(rawf(3.0))]),                     # mpf_psi0 loop (guarded)
     ('digamma', 64, [K.R(rawf(-7.25))]),
+    ('digamma', 53, [K.R(rawf(-1.9))]),
+    ('harmonic', 24, [_c(-2.9, -1.0)]),
+    ('polygamma', 100, [K.I(2), _c(-3.7, 0.25)]),                # mpc_psi loop
     ('hyp2f1', 53, [K.I(1), K.I(1), K.I(2), K.R(rawf(-1.0 + 2.0 ** -30))]),      # hypsum close to |z| = 1
     ('lambertw', 53, [K.R(rawf(-0.36787944117144233 + 2.0 ** -40)), K.I(0)]),   # Halley iteration next to the branch point
     ('lambertw', 200, [_c(1e-300, 0.5), K.I(-1)]),
@@ -516,6 +526,91 @@ class WallTimeout(BaseException):
     pass
 
 
+class LoopBound(BaseException):
+    pass
+
+
+# Iteration monitors on the loops the property names as mechanisms.  The step budget cannot decide an endless loop whose
+# iterations get heavier and heavier (Euler-Maclaurin loops call mpf_bernoulli with a growing index: 10^6 steps take
+# seconds, 2*10^7 take minutes), so these loops get their own bounded-progress oracle, derived from the algorithm and
+# independent of time: the asymptotic series B_2k/(2k z^2k) has its smallest term at k ~ pi|z| and the code shifts z to
+# |z| ~ 0.11 wp (psi0) or 0.4 wp + 4m (psi_m) first, so a call performs about 0.35 wp (resp. 1.3 wp + 13 m) iterations;
+# hypsum doubles its extra precision from 50 bits, so 64 doublings exceed any memory.  Bounds are 5-6 times that.
+LOOPS = [
+    ('mpmath.libmp.gammazeta:mpf_psi0', r'^\s*t = \(t\*x2\) >> wp', lambda L: 2 * L.get('wp', 4000) + 200),
+    ('mpmath.libmp.gammazeta:mpc_psi0', r'^\s*t = mpc_mul\(t, z2, wp\)', lambda L: 2 * L.get('wp', 4000) + 200),
+    ('mpmath.libmp.gammazeta:mpc_psi', r'^\s*zm = mpc_mul\(zm, z2, wp\)', lambda L: 6 * L.get('wp', 4000) + 60 * L.get('m', 1000) + 400),
+    ('mpmath.ctx_mp:MPContext.hypsum', r'^\s*wp = prec \+ extraprec', lambda L: 64),
+]
+
+
+class LoopMonitor(object):
+    """LINE events on the first statement of the body of each anchored loop; iterations are counted per frame."""
+    TOOL = 0
+
+    def __init__(self):
+        self.lines = {}
+        self.state = {}
+        self.maxima = {}
+        self.unresolved = []
+        self.active = False
+
+    def install(self):
+        import re, inspect
+        from vf.instrument import resolve, mon, E
+        try:
+            mon.use_tool_id(self.TOOL, 'vf-c24-loops')
+        except ValueError:
+            mon.free_tool_id(self.TOOL); mon.use_tool_id(self.TOOL, 'vf-c24-loops')
+        for name, rx, bound in LOOPS:
+            f = resolve(name)
+            hit = []
+            if f is not None:
+                try:
+                    src, start = inspect.getsourcelines(f)
+                    hit = [start + i for i, ln in enumerate(src) if re.search(rx, ln)]
+                except Exception:
+                    hit = []
+            if len(hit) != 1:
+                self.unresolved.append(name)
+                continue
+            code = f.__code__
+            self.lines[(code, hit[0])] = (name, bound)
+            self.state[code] = [None, 0]
+            self.maxima[name] = [0, 0.0]
+            mon.set_local_events(self.TOOL, code, E.LINE)
+        lines, state, maxima, me = self.lines, self.state, self.maxima, self
+        getframe = sys._getframe
+
+        def on_line(code, line):
+            ent = lines.get((code, line))
+            if ent is None or not me.active:
+                return
+            st = state[code]
+            fr = getframe(1)
+            if st[0] is not fr:
+                st[0] = fr
+                st[1] = 0
+            st[1] = n = st[1] + 1
+            if not n & 15:
+                b = ent[1](fr.f_locals)
+                mx = maxima[ent[0]]
+                if n > mx[0]:
+                    mx[0] = n
+                if n / b > mx[1]:
+                    mx[1] = n / b
+                if n > b:
+                    me.active = False
+                    st[0] = None
+                    raise LoopBound('%s: %d iterations in one call, bound %d (wp=%s)' % (ent[0], n, b, fr.f_locals.get('wp')))
+        mon.register_callback(self.TOOL, E.LINE, on_line)
+        return self
+
+    def release(self):
+        for st in self.state.values():
+            st[0] = None
+
+
 def _stack_summary(exc, limit=14):
     out = []
     for fs in traceback.extract_tb(exc.__traceback__):
@@ -587,11 +682,16 @@ def run_one(mp, sb, watch, name, specs, p, budget, t2, full=False):
     try:
         try:
             watch.arm(budget, t2, full)
+            if LOOPMON is not None:
+                LOOPMON.active = True
             sb.start(budget)
             try:
                 f(*args)
             finally:
                 sb.active = False
+                if LOOPMON is not None:
+                    LOOPMON.active = False
+                    LOOPMON.release()
                 watch.disarm()
             res['out'] = 'returned'
         except WallTimeout as e:
@@ -599,6 +699,11 @@ def run_one(mp, sb, watch, name, specs, p, budget, t2, full=False):
             res['stack'] = _stack_summary(e)
         except sb_exc as e:
             res['out'] = 'budget'
+            res['stack'] = _stack_summary(e)
+        except LoopBound as e:
+            res['out'] = 'loopbound'
+            res['msg'] = str(e)
+            res['loop'] = str(e).split(':')[1].split(':')[0] if False else str(e).split(': ')[0]
             res['stack'] = _stack_summary(e)
         except MemoryError as e:
             res['out'] = 'memory'
@@ -624,6 +729,7 @@ def run_one(mp, sb, watch, name, specs, p, budget, t2, full=False):
 
 
 from vf.instrument import BudgetExceeded as sb_exc
+LOOPMON = None
 
 
 def child_main(cases, start, wfd, tier, cpu_left, wall_end):
@@ -649,6 +755,8 @@ def child_main(cases, start, wfd, tier, cpu_left, wall_end):
     sb.install()
     watch = Watch(sb, tier, cpu_left)
     signal.signal(signal.SIGPROF, watch)
+    global LOOPMON
+    LOOPMON = LoopMonitor().install()
     ac = AnchorCount(ar, ANCHORS)
     ac.__enter__()
     # self-test of the monitor in this very process: a deliberate endless loop must be cut
@@ -685,7 +793,7 @@ def child_main(cases, start, wfd, tier, cpu_left, wall_end):
             res['tainted'] = tainted
             send(res)
             i += 1
-            if res['out'] in ('budget', 'wall', 'wall2', 'memory'):
+            if res['out'] in ('budget', 'wall', 'wall2', 'memory', 'loopbound'):
                 tainted = True
                 if res['out'] == 'memory':
                     break
@@ -694,7 +802,8 @@ def child_main(cases, start, wfd, tier, cpu_left, wall_end):
             ac.__exit__(None, None, None)
         except Exception:
             pass
-        send({'anchors': ar.a, 'done': i >= len(cases)})
+        send({'anchors': ar.a, 'done': i >= len(cases),
+              'loops': {k: v for k, v in LOOPMON.maxima.items()}, 'loops_unresolved': LOOPMON.unresolved})
         w.close()
 
 
@@ -739,6 +848,12 @@ def verdict(rec, case, res, tier):
                       % (name, B, EXT if opt else 1, B // (EXT if opt else 1), XMAX[ct], p), cdesc,
                       observed='> %d steps; interrupted at %s' % (B, (res.get('stack') or ['?'])[-1]),
                       expected='return or documented exception within %d steps' % B)
+    elif out == 'loopbound':
+        cdesc['stack'] = res.get('stack'); cdesc['message'] = res.get('msg')
+        loop = (res.get('loop') or '?').split(':')[-1]
+        rec.violation('C24/loop-bound/%s/%s' % (loop, cell),
+                      'the %s loop reached through %s runs past the iteration bound of its algorithm: %s' % (loop, name, res.get('msg')), cdesc,
+                      observed=res.get('msg'), expected='asymptotic series truncated at its smallest term / precision doubling bounded by maxprec')
     elif out == 'undocumented':
         cdesc['stack'] = res.get('stack'); cdesc['message'] = res.get('msg')
         rec.violation('C24/undocumented-exception/%s/%s' % (name, res['exc']),
@@ -824,13 +939,18 @@ def supervise(cases, rec, tier, t_start, confirm=None, final=True):
                         finished = True
                     elif 'anchors' in msg:
                         anchors.update(msg['anchors'])
+                        for k, (n, ratio) in (msg.get('loops') or {}).items():
+                            rec.maximum('iterations per call of the anchored loop in ' + k, n)
+                            rec.maximum('iterations per call / bound, anchored loop in ' + k, round(ratio, 3))
+                        for k in msg.get('loops_unresolved') or []:
+                            rec.anchor('unresolved loop monitor:' + k, 1)
                         if msg.get('done'):
                             finished = True
                     elif 'i' in msg:
                         if confirm is not None and msg['out'] == 'budget':
                             confirm.append((cases[msg['i']], msg))
                             rec.event('calls over the budget B (candidates for the extended pass)')
-                        elif confirm is not None and msg.get('tainted') and msg['out'] == 'undocumented':
+                        elif confirm is not None and msg.get('tainted') and msg['out'] in ('undocumented', 'loopbound'):
                             confirm.append((cases[msg['i']], None))
                             rec.event('violation candidates seen in a tainted child, re-executed in a fresh one')
                         else:
